@@ -146,6 +146,10 @@ int main(int argc, char** argv) {
 		// absolute); for those only the ordering of the coefficients is judged, not the inactive-constraint clause
 		static const double SC[] = {1.0, 1.0, 1.0, 1.0 / 8192, 1.0, 1.0 / 8388608, 1.0, 1.0, 256.0};
 		np++; double scale = mono ? SC[np % 9] : 1.0; build_data(p, rng, mono && np % 2 == 0, scale);
+		// unconstrained fits: some problems with all weights AND all smoothing strengths multiplied by one power of two - the
+		// normal equations scale as a whole and the minimiser is the same (nothing in the solver may depend on their absolute size)
+		static const int WS[] = {0, 0, -40, 0, -55, 0, 30};
+		if (!mono && mode == "fit" && WS[np % 7]) { for (auto& v : p.w) v = std::ldexp(v, WS[np % 7]); for (auto& v : p.lam) v = std::ldexp(v, WS[np % 7]); }
 		std::vector<LD> N, r, cstar; normal_eq(p, N, r);
 		if (mode == "threads") {
 			for (int d = 0; d < p.nd; d++) { std::vector<float> c; bool ok = run_fit(p, d, false, false, false, c, rng); std::string bits; for (float v : c) bits += bits32(v); JW w; w.s("kind", "threads").i("pid", np).i("monodim", d).b("ok", ok).s("bits", bits); w.emit(out); }
@@ -160,7 +164,7 @@ int main(int argc, char** argv) {
 				std::vector<float> c; bool ok = run_fit(p, PHOTOSPLINE_GLAM_NO_MONODIM, variant == 1, variant == 2, variant == 3, c, rng);
 				LD err = INFINITY; if (ok && (int)c.size() == p.ntot) { err = 0; for (int i = 0; i < p.ntot; i++) { LD e = fabsl((LD)c[i] - cstar[i]); if (!(e <= err)) err = std::isnan((double)e) ? INFINITY : std::max(err, e); } }
 				static const char* V[] = {"plain", "shuffled", "zero-weight-extras", "c-api"};
-				JW w; w.s("kind", "fit").i("pid", np).s("variant", V[variant]).b("completed", ok).b("within", ok && err <= bound).d("err", (double)err).d("bound", (double)bound).d("cond", (double)cond).i("ncoef", p.ntot).i("ndim", p.nd).raw("problem", line.substr(line.find("\"p\":") + 4, line.rfind('}') - line.find("\"p\":") - 4)); w.emit(out);
+				JW w; w.s("kind", "fit").i("pid", np).i("log2_weight_scale", WS[np % 7]).s("variant", V[variant]).b("completed", ok).b("within", ok && err <= bound).d("err", (double)err).d("bound", (double)bound).d("cond", (double)cond).i("ncoef", p.ntot).i("ndim", p.nd).raw("problem", line.substr(line.find("\"p\":") + 4, line.rfind('}') - line.find("\"p\":") - 4)); w.emit(out);
 			}
 			continue;
 		}
